@@ -1271,8 +1271,20 @@ def verify(contract, unroll=0, shard=(0, 1)):
     outs = []
     for s0 in starts: outs += ex.block(node.body, s0)
     if shard[0] != 0: ctx.obligations = []        # obligations raised along the way belong to shard 0
+    # prune exit paths whose quantifier-free path condition is already unsatisfiable (in-process check, 100 ms): no obligation is
+    # generated for a dead path.  Sound: dropping hypotheses only makes a path easier to satisfy, so `unsat` here proves it dead.
+    ctx.pruned = 0
+    dead = set()
+    if len(outs) > 40:
+        from .solve import has_quantifier
+        for pi, o in enumerate(outs):
+            if pi % shard[1] != shard[0]: continue
+            sv = z3.Solver(); sv.set('timeout', 100)
+            for p in o.state.pc:
+                if not has_quantifier(p): sv.add(p)
+            if sv.check() == z3.unsat: ctx.pruned += 1; dead.add(pi)
     for pi, o in enumerate(outs):
-        if pi % shard[1] != shard[0]: continue
+        if pi % shard[1] != shard[0] or pi in dead: continue
         n_before = len(ctx.obligations)
         ctx.group_marks = getattr(ctx, 'group_marks', [])
         ctx.group_marks.append((pi, n_before))
@@ -1319,5 +1331,5 @@ def verify(contract, unroll=0, shard=(0, 1)):
         end = marks[k + 1][1] if k + 1 < len(marks) else len(ctx.obligations)
         for ob in ctx.obligations[start:end]: ob.group = pi
     ctx.npaths = len(outs)
-    ctx.path_states = [(pi, o.kind, o.exc, o.state) for pi, o in enumerate(outs) if pi % shard[1] == shard[0]]
+    ctx.path_states = [(pi, o.kind, o.exc, o.state) for pi, o in enumerate(outs) if pi % shard[1] == shard[0] and pi not in dead]
     return ctx
